@@ -9,7 +9,7 @@ PID = "C09"
 LEVEL = "exploration"
 RULE = ("base games (G-ACY/G-CYC, 3-10 states) x EVERY applicable (rule, position) pair: list lengths off by one (6 ways), reward -1 / "
         "-1e-300 at each state, unknown owner ('player 1', '', None) at each state, final index n / n+3 / -1 / -n at each slot, no final, "
-        "successor n / -1 / n+7 in each transition, transitions [] / None at each state, container tuple / dict / int at each state, "
+        "successor n / -1 / n+7 in each transition, transitions [] / None at each state, container tuple / dict / int / deque / UserList / iterator at each state, "
         "transition as list / 1-tuple / 3-tuple at each position, non-string action (1, None, 0.5), non-numeric probability ('0.5', None), "
         "successor 1.0 / '1' / None; each solved in both pruning modes by the real solve(), a sample through run_games alone and between "
         "solvable games.  Non-trivial: every case (each is one malformed description); distinct = (base game hash, rule, position).")
@@ -44,6 +44,11 @@ def edits(game):
         g = mk(); g["transition_list"][s] = tuple(tr); yield "container:tuple", pc, g
         g = mk(); g["transition_list"][s] = {i: t for i, t in enumerate(tr)}; yield "container:dict", pc, g
         g = mk(); g["transition_list"][s] = 5; yield "container:int", pc, g
+        # sequence types that behave like a list but are not one (the documented rule asks for a list of 2-tuples)
+        import collections
+        g = mk(); g["transition_list"][s] = collections.deque(tr); yield "container:deque", pc, g
+        g = mk(); g["transition_list"][s] = collections.UserList(tr); yield "container:UserList", pc, g
+        g = mk(); g["transition_list"][s] = iter(list(tr)); yield "container:iterator", pc, g
         isp = game["players"][s] != PR
         for i, (a, t) in enumerate(tr):
             tp = "t-first" if i == 0 else "t-later"
